@@ -150,6 +150,7 @@ type Sched struct {
 	hold    *Hold // optional: park one task at one point until a gate opens
 
 	StallAfter time.Duration
+	SpinLimit  time.Duration
 	HardLimit  time.Duration
 	leaked     bool
 	timer      *time.Timer
@@ -185,7 +186,7 @@ func NewSched(src Source) *Sched {
 	return &Sched{
 		Src: src, notify: make(chan *Task), hash: 0xcbf29ce484222325, SchedHash: 0xcbf29ce484222325,
 		StayNum: 1, StayDen: 2, MaxSteps: 200000,
-		StallAfter: 50 * time.Millisecond, HardLimit: 60 * time.Second,
+		StallAfter: 50 * time.Millisecond, SpinLimit: 4 * time.Second, HardLimit: 60 * time.Second,
 	}
 }
 
@@ -546,6 +547,12 @@ func (s *Sched) await(t *Task) (Outcome, bool) {
 				continue
 			}
 			prev = ""
+			if time.Since(start) > s.SpinLimit && (state == "running" || state == "runnable") {
+				// the task has been computing for seconds without reaching any yield point: a busy-wait loop on state that
+				// only a parked task can change (operations of the system under test take micro- to milliseconds)
+				s.leaked = true
+				return Outcome{Kind: Stalled, Task: t, State: "busy loop (no yield point reached for " + s.SpinLimit.String() + ")", Stack: stack}, false
+			}
 			if time.Since(start) > s.HardLimit {
 				s.leaked = true
 				return Outcome{Kind: Watchdog, Task: t, State: state, Stack: stack, Detail: "task did not yield within the hard limit"}, false
